@@ -8,6 +8,7 @@
 //   write    : parse the XML, write_XML_file, read the written file with libxml2's tree API (independent reader),
 //              print the graph read ("W ...") and the graph of the document that was written ("D ...").
 #include "common.hpp"
+#include <locale>
 
 #include "utap/xmlwriter.h"
 
@@ -368,6 +369,12 @@ void docGraph(Document& doc)
     }
 }
 
+struct GroupingPunct : std::numpunct<char>
+{
+    char do_thousands_sep() const override { return ','; }
+    std::string do_grouping() const override { return "\3"; }
+};
+
 void opWrite(const std::string& text, const std::string& tmp)
 {
     Document doc;
@@ -409,11 +416,14 @@ int main(int argc, char** argv)
         std::cin.get();
         std::cout << "BEGIN " << id << " " << op << "\n";
         if (op == "xml" || op == "xta") opParse(op, text);
-        else if (op == "write") {
+        else if (op == "write" || op == "writeL") {
             // the writer is known to crash on some documents: run it in a child so that one crash costs one case
             std::cout.flush();
             pid_t pid = fork();
             if (pid == 0) {
+                // writeL: the host application has installed a global locale that groups digits (1,001): the written ids and the
+                // references to them must still agree
+                if (op == "writeL") std::locale::global(std::locale(std::locale::classic(), new GroupingPunct));
                 opWrite(text, tmp);
                 std::cout.flush();
                 _exit(0);
